@@ -6,6 +6,7 @@ from common import sx, q, jq, cname, ok
 from units import U
 
 ID = 'C02'
+ZERO_LABELS = True      # a share of the cases is asked with candidates numbered from 0 (harness/common.py LABEL_MODE)
 LEVEL = 'proof'
 GEN_TIES = {'Quota': 'Props/GenTie_Quota.v'}
 TIE = {'component/quota.py': 'translator (Gen/Quota.v == Model/Quota.v, Props/GenTie_Quota.v) + dense grid',
